@@ -236,6 +236,9 @@ type HistOpts struct {
 	FewPIDs      bool
 	WritePktPIDs []uint16
 	ReuseAF      bool // the caller reuses one adaptation field object per PID across WriteData calls
+	// PES_private_data handed over with another length than the 16 bytes of the field (the writer pads or cuts it): only for
+	// histories whose oracle looks at the packets and the counters, not at the header values
+	OddPrivateData bool
 }
 
 var esPIDPool = []uint16{0x20, 0x21, 0x40, 0x41, 0x42, 0x2fa, 0x1ffe, 0x0fff, 0x1001, 0x0800} // disjoint from the automatic range 0x100.. so that the model can attribute PIDs before it has seen a PMT
@@ -545,6 +548,9 @@ func randomDataOp(r *rand.Rand, pid uint16, auto bool, slot int, o HistOpts) HOp
 		if err == nil {
 			hdrLen = len(b)
 		}
+	}
+	if oh := h.OptionalHeader; o.OddPrivateData && oh != nil && oh.HasExtension && oh.HasPrivateData && r.IntN(2) == 0 {
+		oh.PrivateData = gen.Bytes(r, []int{0, 1, 15, 17, 20, 40, 200}[r.IntN(7)])
 	}
 	shared := 0
 	if o.ReuseAF && r.IntN(2) == 0 {
